@@ -204,6 +204,7 @@ type storeDrv struct {
 	tw      *traceWriter
 	plan    *storePlan
 	skipped int
+	expPath string // where ExportToJSON writes (always on the OS file system)
 	drift   []map[string]any
 	steps   int
 }
@@ -395,6 +396,18 @@ func (d *storeDrv) apply(op absOp) error {
 	case "checkpoint":
 		err := d.peb.Checkpoint()
 		d.tw.emit(map[string]any{"ev": "checkpoint", "err": err != nil})
+	case "saveload":
+		// JSON back end: save atomically, load into a fresh scanner (identity on the contract state)
+		p := filepath.Join(filepath.Dir(d.expPath), "store.json")
+		err := d.js.SaveDatabase(p)
+		if err == nil {
+			ns := jsondb.NewScanner()
+			if err = ns.LoadDatabase(p); err == nil {
+				ns.SetThreshold(float64(d.theta) / 1e9)
+				d.js = ns
+			}
+		}
+		d.tw.emit(map[string]any{"ev": "reopen", "err": err != nil})
 	case "reopen":
 		if err := d.peb.Close(); err != nil {
 			return fmt.Errorf("close: %w", err)
@@ -453,7 +466,7 @@ func (d *storeDrv) scanRes(rs []detection.ScanResult) []map[string]any {
 }
 
 func (d *storeDrv) exportPebble() ([]detection.Signature, error) {
-	path := filepath.Join(filepath.Dir(d.dir), "export.json")
+	path := d.expPath
 	if err := d.peb.ExportToJSON(path); err != nil {
 		return nil, err
 	}
@@ -605,6 +618,7 @@ func (d *storeDrv) runHistory(hi int, h []histStep) error {
 	}
 	defer os.RemoveAll(base)
 	d.dir = filepath.Join(base, "db")
+	d.expPath = filepath.Join(base, "export.json")
 	if d.backend == "pebble" {
 		if err := d.openPebble(); err != nil {
 			return err
